@@ -78,12 +78,25 @@ func runC18(c *fw.Ctx) {
 		gen.NewPG(r, gen.ProgOpts{MaxDepth: 5, Try: true, GoErrors: true, Faults: 3}),
 		gen.NewPG(r, gen.ProgOpts{MaxDepth: 5, Macros: true, Try: true}),
 	}
+	illFormed := []string{"(let n 1)", "(let (a) a)", "(let (1 2) 3)", "(def 1 2)", "(fn)", "((fn (1) 1) 2)", "((fn (a &) a) 1)", "(defmacro m 1)", "(try 1 (catch))", "(quasiquote (unquote))",
+		"(if)", "(1 2 3)", "(nth [] 5)", "(+ 1 \"s\")", "(apply 1 [2])", "(map 1 [2])", "(undefined-fn 1)", "(throw (quote (a b)))", "(cond 1)", "(swap! (atom 1) 5)"}
 	for i := 0; i < c.PerShard(c.Pick(16000, 300000)); i++ {
 		pg := gens[i%len(gens)]
 		forms := pg.Program()
+		if i%8 == 7 {
+			// an ill-formed or failing form caught by a handler that traces the caught object and a finally
+			bad, _ := lisp.READ(illFormed[(i/8)%len(illFormed)], nil, nil)
+			forms = append([]*canon.Node{canon.Li(canon.Sy("try"), canon.Li(canon.Sy("trace!"), canon.Ke("before")), canon.FromGo(bad),
+				canon.Li(canon.Sy("catch"), canon.Sy("e"), canon.Li(canon.Sy("trace!"), canon.Li(canon.Sy("list"), canon.Ke("caught"), canon.Sy("e")))),
+				canon.Li(canon.Sy("finally"), canon.Li(canon.Sy("trace!"), canon.Ke("finally"))))}, forms...)
+			c.Count("ill_formed_probes", 1)
+		}
 		text := progText(forms)
 		c.Case(fmt.Sprintf("prog-%d", i), text, func() {
 			mref := runRef(forms, 100000)
+			if i%8 == 7 {
+				mref = runRef(forms[1:], 100000) // the ill-formed probe itself is outside the reference interpreter's language
+			}
 			if mref.Err != nil && (mref.Err.Class == refmal.Budget || mref.Err.Class == refmal.Malformed) {
 				c.Count("discarded."+string(mref.Err.Class), 1)
 				return
